@@ -155,6 +155,11 @@ def analyse(src: Source) -> List[Report]:
                 loc = Loc(ref.file, stmt.lineno, f"{h.name}: {ref.qual}")
                 if in_commit:
                     continue
+                if not hp.roles.commit_subtree and prog.is_subclass(h, "LeavesEventHandler"):
+                    # the routine that commits the induced velocities of composite objects was not identified: whether this write is
+                    # a leaf velocity or an induced one cannot be told
+                    rep.ob("R7.4-velocity-provenance", None, loc, stmt, "idiom not recognised: commit routine of the induced velocities not identified")
+                    continue
                 if elementwise or isinstance(stmt, ast.AugAssign):
                     rep.ob("R7.4-no-leaf-arithmetic", False, loc, stmt,
                            "in-place arithmetic on a leaf velocity: the speed of the chain is no longer the initial speed")
